@@ -1,10 +1,52 @@
 """C06 — element-tree history property: Coq theorems over the tree model (coq/Properties/C06.v), tied to the code by the
-history correspondence and checked directly on the implementation by the oracle (checks/treecommon.py)."""
-import treecommon
+history correspondence and checked directly on the implementation by the oracle (checks/treecommon.py).
+Extra: the witness of C06_rename_skips_dead (coq/Tree/FollowWitnessLoad.v) is replayed on the implementation and on the
+extracted Coq model: after two merging loads a dead WeakElement stands in front of a live referrer, the rename rewrites
+the live ones."""
+import os, json, re
+import lib, treecommon
+from lib import VERIF
+
+WITNESS = ["C06-rename-behind-dead"]
+
+
+def _witness_replays(ctx, avh, avm, tier, seed):
+    if not (avh and avm):
+        return
+    tw = treecommon.TW
+    os.makedirs(tw, exist_ok=True)
+    for key in WITNESS:
+        fp = os.path.join(VERIF, "checks", "witness", key + ".json")
+        if not os.path.exists(fp):
+            ctx.oblige("witness:%s present" % key, False, "missing " + fp)
+            continue
+        obj = json.load(open(fp))
+        sp = os.path.join(tw, "c06_%s.txt" % key)
+        open(sp, "w").write("\n".join(obj["script"]) + "\n")
+        env = {"AVH_TREE_ENABLE": "load"}
+        _, o1, _ = lib.run([avh, "tree", "run", treecommon.DUMP, sp, "-v"], cwd=tw, timeout=300, env=env)
+        _, o2, _ = lib.run([avm, treecommon.DUMP, sp], cwd=tw, timeout=300, env=env)
+        a = [l for l in o1.split("\n") if l.startswith("S ")]
+        b = [l for l in o2.split("\n") if l.startswith("S ")]
+        ctx.oblige("correspondence:witness-replay(%s: implementation vs extracted Coq model)" % key, a == b and len(a) == 1,
+                   "impl %s model %s" % (a, b))
+        # the last observation of each expected handle
+        last = {}
+        for l in o1.split("\n"):
+            m = re.match(r"H (\d+) .* cd=(\S+)", l)
+            if m:
+                last[m.group(1)] = m.group(2)
+        bad = {h: last.get(h) for h, cd in obj["expect_cd"].items() if last.get(h) != cd}
+        ctx.oblige("witness:%s (live referrers behind a dead entry are rewritten on the implementation)" % key, not bad,
+                   "handles with another text: %s" % bad)
+        _, o3, _ = lib.run([avh, "tree", "oracle", treecommon.DUMP, sp], cwd=tw, timeout=300, env=env)
+        fails = [l for l in o3.split("\n") if l.startswith("FAIL C06 ")]
+        ctx.oblige("oracle:witness-replay(%s: no C06 failure)" % key, not fails, "; ".join(fails)[:400])
 
 
 def run(tier, seed):
-    return treecommon.run_tree_property("C06", tier, seed, "Properties/C06.v")
+    return treecommon.run_tree_property("C06", tier, seed, "Properties/C06.v", extra_check=_witness_replays,
+                                          extra_props=[("Properties/C06Load.v", "pins/C06Load.json")])
 
 
 def replay(path):
